@@ -1,5 +1,5 @@
 import CotengraVerif.Lemmas.SoundRun
-import CotengraVerif.Lemmas.IndsDefault
+import CotengraVerif.Lemmas.SortOK
 import CotengraVerif.Model.Recipes
 
 /-!
@@ -27,17 +27,17 @@ import CotengraVerif.Model.Recipes
   network satisfying the guards, every complete tree, every children-first order, both
   `prefer_einsum` values and every admissible table of per-node index orders (the default one
   of `get_inds` is admissible: `inds_ok`).
-* `model_contract_correct` – the two combined: C01 for the model.
+* `model_extract_admissible_sorted` – in particular for the table that the model of
+  `sort_contraction_indices` leaves behind, for every processing order (`priority`) and both
+  flags (`sortInds_ok`).
+* `model_contract_correct` – soundness and extraction combined: C01 for the model.
 * `run_order_irrelevant` – any two children-first orders (and recipe choices) yield the same
   array (same shape, same entry at every position).
 
 ## Not modelled / not proved
 
 `strip_exponent`, `autojit`, cuquantum, slicing drivers (`contract` loops over slices: C06),
-floating point.  `sortInds` (model of `sort_contraction_indices`) is executable and compared
-with the real code by the harness, but that it yields an admissible table (`IndsOK`) is *not*
-proved (`model_extract_admissible_inds` covers it only under that hypothesis; every real
-sorted program is certified by the checker at run time instead).
+floating point.
 -/
 namespace Cotengra.C01
 open Cotengra Cotengra.Net
@@ -185,6 +185,22 @@ theorem model_extract_admissible (n : Net) (rm : List Ix) (t : BT) (order : List
     (ho : ChildrenFirst t order) :
     Admissible n rm t (extract n rm order preferEinsum) = true :=
   extractWith_admissible n rm t _ order preferEinsum hN hc G (inds_ok n rm t hN hc) ho
+
+/-- **`model_extract_admissible_sorted`.**  The same after the model of
+    `sort_contraction_indices(priority, make_output_contig, make_contracted_contig)`, for every
+    processing order `proc` over nodes of the tree. -/
+theorem model_extract_admissible_sorted (n : Net) (rm : List Ix) (t : BT) (order proc : List BT)
+    (preferEinsum outputContig contractedContig : Bool) (hN : 2 ≤ n.inputs.length)
+    (hc : Complete n t) (G : Guards n) (ho : ChildrenFirst t order)
+    (hp : ∀ p ∈ proc, p ∈ t.internal) :
+    Admissible n rm t
+      (extractWith n rm (sortInds n rm outputContig contractedContig proc) order preferEinsum)
+        = true :=
+  extractWith_admissible n rm t _ order preferEinsum hN hc G
+    (sortInds_ok n rm t outputContig contractedContig proc hN hc (fun p h => by
+      have := (C03.internal_leaves_sublist t p (hp p h)).length_le
+      rw [complete_length n t hc] at this
+      exact this)) ho
 
 /-- **C01 for the model**: contracting well-shaped arrays through any complete tree, in any
     children-first order, with either recipe preference and any admissible index-order table,
